@@ -29,6 +29,11 @@ def hx(s):
     return hexs(s if isinstance(s, bytes) else s.encode())
 
 
+# (union descriptor, value hex) -> index of the member that, asked on its own, is the first to accept the value under the data hints; filled by run_union,
+# read by c03.classify (F412 is about values of DIFFERENT members)
+MEMBER_OF = {}
+
+
 # ------------------------------------------------------------------------------------------------ descriptors
 def split_top(s):
     out, depth, cur = [], 0, ""
@@ -341,6 +346,7 @@ def run_union(run):
                             {"type": u, "value_hex": hx(s), "hints": h, "got": r, "first_member": who, "member_canonical": want, "law": "union_accept_iff"})
                 if h is None and got is not None:
                     accepted[u].append(s)
+                    MEMBER_OF[(u, hx(s))] = who
                 # LYB form: member index + the member's LYB value
                 if h is not None and r[0] == "ok" and who is not None:
                     rm = run.get("store %s %d %s" % (members[u][who], h, hx(s)))
@@ -375,9 +381,18 @@ def run_union(run):
             cases.append("lybrt %s %s" % (u, hx(a)))
             c = unhex(run.get("validate %s %s" % (u, hx(a)))[1])
             cases.append("validate %s %s" % (u, hx(c)))
+            cases += ["validate %s %s" % (m, hx(c)) for m in set(members[u])]
             if b"\x00" not in c:
                 cases.append("cmp %s %s %s" % (u, hx(a), hx(c)))
     run.diff(cases)
+    for u in pairs:
+        for a in pairs[u][0]:
+            c = unhex(run.get("validate %s %s" % (u, hx(a)))[1])
+            if (u, hx(c)) not in MEMBER_OF:
+                for k, m in enumerate(members[u]):
+                    if run.get("validate %s %s" % (m, hx(c)))[0] == "ok":
+                        MEMBER_OF[(u, hx(c))] = k
+                        break
     valcomp.laws_value(run, {u: accepted[u] for u in pairs}, pairs)
 
     # ---- LYB decode: every member index (also the ones a text value never selects), bad sizes and indices
